@@ -42,11 +42,13 @@ Proof. destruct c, r; cbn; intros H; try discriminate; reflexivity. Qed.
 Lemma deliver_error a c e : deliver a c (KErr e) = Failed e.
 Proof. destruct c; reflexivity. Qed.
 
-Lemma deliver_mismatch a c r : response_kind r <> call_kind c <-> deliver a c (KOk r) = Panicked.
-Proof.
-  destruct c, r; cbn; split; intros H; try reflexivity; try discriminate; try congruence;
-    exfalso; apply H; reflexivity.
-Qed.
+Lemma deliver_mismatch a c r : response_kind r <> call_kind c ->
+  deliver a c (KOk r) = Failed (mismatch_error (call_kind c)).
+Proof. destruct c, r; cbn; intros H; try reflexivity; exfalso; apply H; reflexivity. Qed.
+
+(* crux_kv never panics, whatever the shell answers *)
+Lemma deliver_total a c r : deliver a c r <> Panicked.
+Proof. destruct c, r as [[]|]; discriminate. Qed.
 
 (* what the shell meant is what the app gets *)
 Lemma deliver_payload a c p r : response_of_payload (call_kind c) p = Some r -> deliver a c (KOk r) = Delivered p.
@@ -68,12 +70,13 @@ Qed.
 Lemma outcome_trichotomy a c r :
   match deliver a c r with
   | Delivered p => exists x, r = KOk x /\ response_kind x = call_kind c /\ p = payload_of_response x
-  | Failed e => r = KErr e
-  | Panicked => exists x, r = KOk x /\ response_kind x <> call_kind c
+  | Failed e => r = KErr e \/ (exists x, r = KOk x /\ response_kind x <> call_kind c /\ e = mismatch_error (call_kind c))
+  | Panicked => False
   end.
 Proof.
-  destruct r as [x|e]; [|rewrite deliver_error; reflexivity].
-  destruct c, x; cbn; try (eexists; repeat split; congruence); eexists; split; try reflexivity; discriminate.
+  destruct r as [x|e]; [|rewrite deliver_error; now left].
+  destruct c, x; cbn; try (eexists; repeat split; congruence);
+    right; eexists; repeat split; discriminate.
 Qed.
 
 (* ------------------------------------------------------------------ schema image *)
